@@ -71,14 +71,35 @@ pub fn build_mods(id: &str, mods: &[(ItemPath, Module)], ptrw: usize) -> BuildOu
 }
 
 /// Definitions for a module's extern types, as the user of the bindings would supply them.
+/// Element type whose natural alignment is `align` on the targets used here.
+pub fn elem_for_align(align: i64) -> Option<(&'static str, i64)> {
+    match align {
+        1 => Some(("u8", 1)),
+        2 => Some(("u16", 2)),
+        4 => Some(("u32", 4)),
+        8 => Some(("u64", 8)),
+        16 => Some(("u128", 16)),
+        _ => None,
+    }
+}
+
 pub fn extern_defs(m: &Module) -> String {
     let mut s = String::new();
     for (name, attrs) in &m.extern_types {
-        let size = attr_int(attrs, "size").unwrap_or(0).max(0);
-        let align = attr_int(attrs, "align").unwrap_or(1).max(1);
-        s.push_str(&format!(
-            "#[derive(Clone, Copy)]\n#[repr(C, align({align}))]\npub struct {name}(pub [u8; {size}]);\nimpl Default for {name} {{ fn default() -> Self {{ {name}([0u8; {size}]) }} }}\n"
-        ));
+        let size = attr_int(attrs, "size").unwrap_or(0).max(0) as i64;
+        let align = attr_int(attrs, "align").unwrap_or(1).max(1) as i64;
+        // prefer a stand-in without `repr(align)` (which a packed struct could not contain)
+        match elem_for_align(align) {
+            Some((elem, a)) if size % a == 0 => {
+                let n = size / a;
+                s.push_str(&format!(
+                    "#[derive(Clone, Copy)]\n#[repr(C)]\npub struct {name}(pub [{elem}; {n}]);\nimpl Default for {name} {{ fn default() -> Self {{ {name}([0; {n}]) }} }}\n"
+                ));
+            }
+            _ => s.push_str(&format!(
+                "#[derive(Clone, Copy)]\n#[repr(C, align({align}))]\npub struct {name}(pub [u8; {size}]);\nimpl Default for {name} {{ fn default() -> Self {{ {name}([0u8; {size}]) }} }}\n"
+            )),
+        }
     }
     s
 }
